@@ -993,7 +993,7 @@ func (l *LinkLayerDiscoveryInfo) Decode8023() (info LLDPInfo8023, err error) {
 			info.PowerViaMDI.PSEPairsAbility = (o.Info[0]&LLDPMDIPowerPairsAbility > 0)
 			info.PowerViaMDI.PSEPowerPair = uint8(o.Info[1])
 			info.PowerViaMDI.PSEClass = uint8(o.Info[2])
-			if len(o.Info) >= 7 {
+			if len(o.Info) >= 8 {
 				info.PowerViaMDI.Type = LLDPPowerType((o.Info[3] & 0xc0) >> 6)
 				info.PowerViaMDI.Source = LLDPPowerSource((o.Info[3] & 0x30) >> 4)
 				if info.PowerViaMDI.Type == 1 || info.PowerViaMDI.Type == 3 {
